@@ -21,9 +21,10 @@ for name in sorted(os.listdir(root)):
     vet = open(os.path.join(d, "vet.txt")).read() if os.path.exists(os.path.join(d, "vet.txt")) else ""
     checks = open(os.path.join(d, "checks.txt")).read() if os.path.exists(os.path.join(d, "checks.txt")) else ""
     caught = []
-    mm = re.search(r"CAUGHT-BY:(.*)", checks)
-    if mm:
-        caught = mm.group(1).split()
+    mms = re.findall(r"CAUGHT-BY:(.*)", checks)
+    mm = mms[-1] if mms else None
+    if mm is not None:
+        caught = mm.split()
     else:
         # no finished evaluation on file (e.g. an interrupted re-evaluation): keep what was recorded
         mp_old = os.path.join(d, "meta.json")
